@@ -225,6 +225,83 @@ def e2e(rep, tier, seed):
     return found
 
 
+def skip_range_stream(rep, tier, seed):
+    """correspondence of the range recorded for a skip-marked item (coq/C07/Model.v range_recorded) with the formatter's own
+    skipped ranges: generated files whose code before each skip-marked item grows, shrinks or keeps its number of lines"""
+    import random
+    rnd = random.Random("c07-skiprange-%d" % seed)
+    cases, metas = [], []
+    blk_of = {}
+    for ci in range(60 if tier != "thorough" else 800):
+        lines, sites = [], []
+        for bi in range(rnd.randint(2, 5)):
+            k = rnd.random()
+            tag = "%d_%d" % (ci, bi)
+            if k < 0.45:
+                shape = rnd.choice(["plain", "same_line", "two_attrs", "blank_between"])
+                start = len(lines) + 1
+                if shape == "plain":
+                    blk = ["#[rustfmt::skip]", "const SKIP_%s: u8 =" % tag, "    1   +  2;"]
+                    site = (start, start, start, 2)          # for an item the "main" span starts at its first attribute
+                elif shape == "same_line":
+                    blk = ["#[rustfmt::skip] const SKIP_%s: u8 =" % tag, "    1   +  2;"]
+                    site = (start, start, start, 1)
+                elif shape == "two_attrs":
+                    blk = ["#[allow(unused)]", "#[rustfmt::skip]", "const SKIP_%s: u8 =" % tag, "    1   +  2;"]
+                    site = (start, start + 1, start, 3)
+                else:
+                    blk = ["#[rustfmt::skip]", "", "const SKIP_%s: u8 =" % tag, "    1   +  2;"]
+                    site = (start, start, start, 3)
+                lines += blk
+                blk_of["SKIP_%s" % tag] = blk
+                sites.append((site, "SKIP_%s" % tag, blk[0]))
+            elif k < 0.8:
+                lines += rnd.choice([["fn   grow_%s( ) { a(); b(); }"], ["fn shrink_%s(", "    a: u8,", "    b: u8,", ") {", "}"], ["", "", "", "fn gap_%s() {}"], ["fn keep_%s() {}"]])
+                lines[-1] = lines[-1].replace("%s", tag)
+                lines = [l.replace("%s", tag) for l in lines]
+            else:
+                lines.append("fn plain_%s() {}" % tag)
+        cases.append({"text": "\n".join(lines) + "\n", "config": [], "again": False, "lex": False, "entries": True})
+        metas.append(sites)
+    res = common.run_vh_pool("pool", cases, per_case_timeout=15)
+    exprs, expect = [], []
+    for c, sites, r in zip(cases, metas, res):
+        if not isinstance(r, dict) or r.get("out") is None or r.get("skipped") is None:
+            continue
+        olines = r["out"].split("\n")
+        got = sorted(tuple(x) for x in r["skipped"])
+        want_sites = []
+        ok = True
+        for (a, b, f, nl), name, first in sites:
+            # the output line on which the item (its first attribute) starts
+            cand = [i + 1 for i, l in enumerate(olines) if name in l]
+            if len(cand) != 1:
+                ok = False
+                break
+            out_start = cand[0] - [i for i, l in enumerate(blk_of[name]) if name in l][0]
+            want_sites.append((a, b, f, nl, out_start - 1))
+        if not ok:
+            continue
+        exprs.append("[%s]" % "; ".join("run_skip_range %d %d %d %d %d" % t for t in want_sites))
+        expect.append((c, got, want_sites, r["out"]))
+    found = 0
+    if exprs:
+        vals = common.run_coq_cases("From V Require Import Base.Text C07.Model C07.Run.\nOpen Scope N_scope.", "", exprs, "c07skip", per_file=200)
+        bad = 0
+        for (c, got, sites, out), v in zip(expect, vals):
+            model = sorted((int(lo), int(hi)) for (okb, lo, hi) in v)
+            if any(not okb for (okb, lo, hi) in v):
+                continue
+            if model != got:
+                bad += 1
+                if rep.violation("skipped_range_not_the_items_lines", {"input": c["text"], "out": out, "recorded_by_rustfmt": got, "lines_of_the_skipped_items": model, "sites": sites},
+                                 "the ranges rustfmt recorded as skipped %r are not the output lines of the skip-marked items %r (model range_recorded)" % (got, model)):
+                    found += 1
+        rep.coverage["skip_range_cases"] = len(exprs)
+        rep.coverage["skip_range_disagreements"] = bad
+    return found
+
+
 def crate_stream(rep, tier, seed):
     """several files formatted in ONE run of the real binary: skipped items and over-wide lines at known places in every file;
     the diagnostics on stderr (file and 1-based line of the emitted text) must be exactly the over-wide lines that are not
@@ -316,7 +393,7 @@ def run(tier, seed, replay):
         imports="From V Require Import Base.Text C07.Model C07.Run.\nOpen Scope N_scope.",
         model_expr=model_expr, canon_model=canon_model, canon_impl=canon_impl, oracle=oracle,
         nontrivial=nontrivial,
-        extra=lambda rep, tier, seed: (e2e(rep, tier, seed) or 0) + crate_stream(rep, tier, seed),
+        extra=lambda rep, tier, seed: (e2e(rep, tier, seed) or 0) + crate_stream(rep, tier, seed) + skip_range_stream(rep, tier, seed),
         rule="seeded random texts of 1..8 lines built from code / long runs / tabs / trailing blanks (space, tab, U+00A0, U+3000) / line and block comments / strings spanning lines / CRLF, with 0..3 trailing newlines; max_width in {20,25,30,40,60,100}, tab_spaces 1..8, both error options on/off, random skipped ranges and line selections; non-trivial = at least one diagnostic; distinct by hash",
         per_file=100,
     )
